@@ -16,6 +16,7 @@ from gv.astutil import stmts_of
 from gv.astutil import unparse
 from gv.astutil import walk_body
 from gv.cfg import cfg_of
+from gv.props.shared import unfolded
 from gv.props import describe
 from gv.props.shared import branch_conditions
 from gv.props.shared import conj_literals
@@ -62,10 +63,18 @@ def check_optimum(ctx: Ctx) -> None:
     fp = [s for s in stmts_of(f) if isinstance(s, ast.Assign) and dotted(s.value) == "self.feasible_points" and isinstance(s.targets[0], ast.Tuple) and len(s.targets[0].elts) == 2]
     ctx.need(len(fp) == 1, "optimum: `feas_x, feas_f = self.feasible_points` not found")
     feas_x, feas_f = (e.id for e in fp[0].targets[0].elts)
-    loops = [s for s in stmts_of(f) if isinstance(s, ast.For) and isinstance(s.iter, ast.Call) and dotted(s.iter.func) == "enumerate" and dotted(s.iter.args[0]) == feas_f]
-    ctx.need(len(loops) == 1 and isinstance(loops[0].target, ast.Tuple), "optimum: loop over enumerate(feasible outputs) not found")
+    # the loop over the feasible records: `for i, rec in enumerate(feas_f)` (design = feas_x[i]) or
+    # `for x, rec in zip(feas_x, feas_f)` (design = x)
+    loops = [s for s in stmts_of(f) if isinstance(s, ast.For) and isinstance(s.iter, ast.Call) and isinstance(s.target, ast.Tuple) and len(s.target.elts) == 2 and ((dotted(s.iter.func) == "enumerate" and [dotted(a_) for a_ in s.iter.args] == [feas_f]) or (dotted(s.iter.func) == "zip" and [dotted(a_) for a_ in s.iter.args] == [feas_x, feas_f]))]
+    ctx.need(len(loops) == 1 and all(isinstance(e, ast.Name) for e in loops[0].target.elts), "optimum: loop over enumerate(feasible outputs) not found")
     lp = loops[0]
     i_var, rec_var = (e.id for e in lp.target.elts)
+    zipped = dotted(lp.iter.func) == "zip"
+
+    def own_point(e: ast.AST) -> bool:
+        if zipped:
+            return dotted(e) == i_var
+        return isinstance(e, ast.Subscript) and dotted(e.value) == feas_x and dotted(e.slice) == i_var
     # the final return
     rets = [s for s in stmts_of(f) if isinstance(s, ast.Return) and isinstance(s.value, ast.Call) and last_attr(s.value) == "Solution"]
     ctx.need(len(rets) == 2, "optimum: the two Solution(...) returns were not found")
@@ -126,8 +135,8 @@ def check_optimum(ctx: Ctx) -> None:
             names = names_in(s.value)
             tgt = _assigned_names(s) & reported
             if x_opt in tgt:
-                okv = isinstance(s.value, ast.Subscript) and dotted(s.value.value) == feas_x and dotted(s.value.slice) == i_var
-                ctx.ob("4.1-same-record", con, okv, "the reported design must be the feasible point of the loop's own index", node=s, stmt=f"{x_opt} = {feas_x}[{i_var}]")
+                okv = own_point(s.value)
+                ctx.ob("4.1-same-record", con, okv, "the reported design must be the feasible point of the loop's own index", node=s, stmt=f"{x_opt} = the feasible point of the selected record")
             elif f_opt in tgt:
                 ctx.ob("4.1-same-record", con, dotted(s.value) == cand, "the reported objective must be the candidate just compared", node=s, stmt=f"{f_opt} = candidate")
             else:
@@ -264,25 +273,43 @@ def check_tolerances(ctx: Ctx) -> None:
     con = cname(CO, "Constraints", "is_constraint_satisfied")
     cfg = cfg_of(f)
     rets = [s for s in stmts_of(f) if isinstance(s, ast.Return)]
-    ctx.need(len(rets) == 2, "is_constraint_satisfied: two returns expected")
-    # the return not under the EQ guard is the fall-through (inequality) one
+    ctx.need(rets, "is_constraint_satisfied: no return")
+    # the constraint-type tests of the method; the method is specialised on each of their outcomes and the value
+    # returned on that side is unfolded (locals replaced by their definitions), so that `return all(abs(v) <= tol.eq)`
+    # under a guard and `v = abs(v); tol = tol.eq ... return all(v <= tol)` are the same thing
+    type_tests = {}
+    for t in cfg.nodes(lambda n_: cfg.kind[n_] == "test"):
+        cp = compare_parts(cfg.ast[t].test)
+        if cp and cp[1] in (ast.Eq, ast.NotEq):
+            sides = [dotted(cp[0]) or "", dotted(cp[2]) or ""]
+            lab = "eq" if any(x.endswith(".EQ") for x in sides) else ("ineq" if any(x.endswith(".INEQ") for x in sides) else None)
+            if lab:
+                type_tests[norm_stmt(cfg.ast[t].test)] = (lab, cp[1] is ast.Eq)
+    ctx.need(len(type_tests) == 1, "is_constraint_satisfied: exactly one constraint-type test expected")
+    (ttxt, (lab, positive)), = type_tests.items()
     seen = set()
-    for r in rets:
-        kind = eq_branch(cfg, cfg.node_of(r))
-        if kind is None:
-            kind = "ineq" if "eq" in seen or any(eq_branch(cfg, cfg.node_of(o)) == "eq" for o in rets if o is not r) else "eq"
+    for fact in (True, False):
+        kind = lab if fact == positive else ("ineq" if lab == "eq" else "eq")
         seen.add(kind)
-        cmps = [n for n in ast.walk(r.value) if isinstance(n, ast.Compare)]
-        ok = len(cmps) == 1
-        if ok:
-            l, op, rr = compare_parts(cmps[0])
-            if tol_kind(l):
-                l, op, rr = rr, {ast.GtE: ast.LtE, ast.Gt: ast.Lt, ast.LtE: ast.GtE, ast.Lt: ast.Gt}.get(op, op), l
-            ok = tol_kind(rr) == kind and op is ast.LtE
-            has_abs = any(isinstance(c, ast.Call) and last_attr(c) in ("np_abs", "abs", "absolute", "fabs") for c in ast.walk(l))
-            ok = ok and (has_abs if kind == "eq" else not has_abs)
-            ok = ok and any(isinstance(c, ast.Call) and last_attr(c) in ("np_all", "all") for c in ast.walk(r.value))
-        ctx.ob("4.4-routing", con, ok, f"the {kind} branch must be all(|value| <= tolerances.equality) resp. all(value <= tolerances.inequality)", node=r, slots={"branch": kind})
+        alts = []
+        for r in rets:
+            a = unfolded(f, r, {ttxt: fact}, get=lambda st: st.value)
+            if a:
+                alts.extend((r, x) for x in a)
+        ok = bool(alts)
+        for r, val in alts:
+            cmps = [n for n in ast.walk(val) if isinstance(n, ast.Compare)]
+            good = len(cmps) == 1
+            if good:
+                l, op, rr = compare_parts(cmps[0])
+                if tol_kind(l):
+                    l, op, rr = rr, {ast.GtE: ast.LtE, ast.Gt: ast.Lt, ast.LtE: ast.GtE, ast.Lt: ast.Gt}.get(op, op), l
+                good = tol_kind(rr) == kind and op is ast.LtE
+                has_abs = any(isinstance(c, ast.Call) and last_attr(c) in ("np_abs", "abs", "absolute", "fabs") for c in ast.walk(l))
+                good = good and (has_abs if kind == "eq" else not has_abs)
+                good = good and any(isinstance(c, ast.Call) and last_attr(c) in ("np_all", "all") for c in ast.walk(val))
+            ok = ok and good
+        ctx.ob("4.4-routing", con, ok, f"the {kind} branch must be all(|value| <= tolerances.equality) resp. all(value <= tolerances.inequality)", node=(alts or [(f, None)])[0][0], stmt=f"{kind} constraints: satisfied iff within the {kind} tolerance", slots={"branch": kind})
     ctx.ob("4.4-routing", con, seen == {"eq", "ineq"}, "both constraint types must be handled", node=f, stmt="both types handled")
     # siblings with explicit tolerance variables
     for rel, clsn, meth in ((OH, "OptimizationHistory", "check_design_point_is_feasible"), (CO, "Constraints", "get_number_of_unsatisfied_constraints")):
@@ -328,12 +355,25 @@ def check_result(ctx: Ctx) -> None:
     f = ctx.index.method(OR, "OptimizationResult", "from_optimization_problem")
     con = cname(OR, "OptimizationResult", "from_optimization_problem")
     cfg = cfg_of(f)
-    unp = [s for s in stmts_of(f) if isinstance(s, ast.Assign) and dotted(s.value) == "problem.optimum" and isinstance(s.targets[0], ast.Tuple)]
-    ctx.need(len(unp) == 1 and len(unp[0].targets[0].elts) == 5, "from_optimization_problem: unpacking of problem.optimum not found")
-    f_opt, x_opt, is_feas, c_opt, c_grad = (dotted(e) for e in unp[0].targets[0].elts)
     sol = ctx.index.cls(OH, "OptimizationHistory.Solution")
     order = [s.target.id for s in sol.node.body if isinstance(s, ast.AnnAssign)]
-    ctx.ob("4.1-result-fields", con, order == ["objective", "design", "is_feasible", "constraints", "constraint_jacobian"], "the Solution tuple must be (objective, design, is_feasible, constraints, constraint_jacobian), the order in which it is unpacked", node=unp[0], slots={"order": order})
+    # the locals that hold the fields of problem.optimum: by tuple unpacking (position -> field of the Solution
+    # named tuple) or by attribute (`optimum = problem.optimum; f_opt = optimum.objective`)
+    holders = {"problem.optimum"} | {t.id for s in stmts_of(f) if isinstance(s, ast.Assign) and dotted(s.value) == "problem.optimum" for t in s.targets if isinstance(t, ast.Name)}
+    bound = {}
+    for s in stmts_of(f):
+        if not isinstance(s, ast.Assign) or len(s.targets) != 1:
+            continue
+        t = s.targets[0]
+        if isinstance(t, ast.Tuple) and dotted(s.value) in holders and len(t.elts) == len(order):
+            for e_, fld in zip(t.elts, order):
+                bound.setdefault(fld, dotted(e_))
+        elif isinstance(t, ast.Name) and isinstance(s.value, ast.Attribute) and dotted(s.value.value) in holders and s.value.attr in order:
+            bound.setdefault(s.value.attr, t.id)
+    wanted = ["objective", "design", "is_feasible", "constraints", "constraint_jacobian"]
+    ctx.need(all(w in bound for w in wanted), "from_optimization_problem: unpacking of problem.optimum not found")
+    f_opt, x_opt, is_feas, c_opt, c_grad = (bound[w] for w in wanted)
+    ctx.ob("4.1-result-fields", con, order == ["objective", "design", "is_feasible", "constraints", "constraint_jacobian"], "the Solution tuple must be (objective, design, is_feasible, constraints, constraint_jacobian), the order in which it is unpacked", node=sol.node, stmt="Solution field order", slots={"order": order})
     negs = [s for s in stmts_of(f) if isinstance(s, ast.Assign) and dotted(s.targets[0]) == f_opt and isinstance(s.value, ast.UnaryOp) and isinstance(s.value.op, ast.USub) and dotted(s.value.operand) == f_opt]
     ctx.need(len(negs) == 1, "from_optimization_problem: `f_opt = -f_opt` not found")
     from gv.props.shared import literal_facts as _lf2
